@@ -133,8 +133,24 @@ def parse(path):
     src = open(path).read()
     src = re.sub(r"//[^\n]*", "", src)
     body = src[src.index("namespace natural_units"):]
+    # only definitions at namespace scope are unit constants: a `const double` local of a function body (or of a class) is not
+    stack, scope_at, last = [], {}, 0
+    for i, ch in enumerate(body):
+        if ch == "{":
+            head = body[last:i]
+            stack.append("ns" if re.search(r"namespace\s*\w*\s*$", head) else "block")
+            last = i + 1
+        elif ch == "}":
+            if stack:
+                stack.pop()
+            last = i + 1
+        elif ch == ";":
+            last = i + 1
+        scope_at[i] = all(k == "ns" for k in stack)
     defs = []
     for m in re.finditer(r"const\s+double\s+(\w+)\s*=\s*([^;]+);", body):
+        if not scope_at.get(m.start(), True):
+            continue
         name, expr = m.group(1), m.group(2)
         p = P(expr)
         r = p.product()
